@@ -144,6 +144,26 @@ Definition c01_wild_discovery_mono_statement : Prop :=
     lib_mono_b (cfg_nofail cfg) (fs_init LNone) h = true ->
     c01_statement cfg LNone h.
 
+(* An INPUT condition that implies the run condition: every block of the history lies strictly ABOVE the first
+   streamable block.  (ReversibleSegment's guard "first streamable < num < LIB number => nil" then keeps every
+   chain whose numbers lie under a too-high LIB number from being delivered, and a LIB reference with a lower
+   number from being accepted.)  With it the whole of c01_statement holds for every well-formed history,
+   whatever the blocks declare and whatever the configured LIB is: both witnesses need a block AT or UNDER the
+   first streamable block. *)
+Definition above_first_b (cfg : config) (h : list block) : bool := forallb (fun b => c_first cfg <? bnum b) h.
+
+Definition c01_wild_first_statement : Prop :=
+  (forall cfg r0 m h,
+     rooted_mode r0 m ->
+     f_new (c_filter cfg) = true -> f_undo (c_filter cfg) = true ->
+     wf_b h = true -> ri r0 <> 0 -> above_first_b cfg h = true ->
+     c01_statement cfg m h /\ lib_mono_b (cfg_nofail cfg) (fs_init m) h = true) /\
+  (forall cfg h,
+     c_hold cfg = true -> c_incl cfg = false ->
+     f_new (c_filter cfg) = true -> f_undo (c_filter cfg) = true ->
+     wf_b h = true -> above_first_b cfg h = true ->
+     c01_statement cfg LNone h /\ lib_mono_b (cfg_nofail cfg) (fs_init LNone) h = true).
+
 (* the class of c01_moving_lib_roots_partial lies inside the class of c01_wild_mono_statement *)
 Definition c01_wild_mono_subsumes : Prop :=
   forall cfg r0 m h,
